@@ -21,6 +21,16 @@ def theorems():
     return common.theorems_of('KyupyVerif/Props/C01.lean', 'KV.C01')
 
 
+def _retry_if_driver_killed(fn, case):
+    """a driver process ended by an external signal (negative return code: machine shared with other runs) says nothing about the
+    case: evaluate it once more with a fresh driver; every other exception propagates"""
+    try:
+        return fn(case)
+    except RuntimeError as ex:
+        if 'driver died (rc=-' not in str(ex): raise
+        return fn(case)
+
+
 def build_case(rng, idx):
     c = circ.rand_circuit(rng)
     return c
@@ -131,7 +141,7 @@ def corr_and_oracle(ck, n_circuits, thorough=False):
                 ck.broken_tie('certificate wellOrderedB on the real ops', ans, inp={'net': dump, 'strip': strip})
         case = make_case(rng, c, thorough)
         try:
-            ok, obs, exp = eval_case(case)
+            ok, obs, exp = _retry_if_driver_killed(eval_case, case)
         except Exception as ex:
             ok, obs, exp = False, {'raised': f'{type(ex).__name__}: {ex}'[:300]}, None
         nontriv = d['lines'] >= 4
@@ -256,7 +266,7 @@ def cycle_tie(ck, n_circuits, thorough=False):
         for rep in range(2):
             case = make_cycle_case(rng, c)
             try:
-                ok, obs, exp = eval_cycle_case(case)
+                ok, obs, exp = _retry_if_driver_killed(eval_cycle_case, case)
             except Exception as ex:
                 ok, obs, exp = False, {'raised': f'{type(ex).__name__}: {ex}'[:300]}, None
             ck.case(key=('cycle', circ.dump_net(c), case['m'], case['strip'], case['reuse'], case['path'], case['k']),
